@@ -50,6 +50,10 @@ func render(spec *servlab.C09Spec, global [][]int, rawOps []rawOp) []byte {
 	paths := map[string]any{}
 	for _, o := range rawOps {
 		op := map[string]any{"responses": map[string]any{"200": map[string]any{"description": "ok"}}}
+		if spec.Convenient {
+			// every operation has the same default response: the generator folds it into convenient errors (NewError)
+			op["responses"].(map[string]any)["default"] = map[string]any{"description": "error", "content": map[string]any{"application/json": map[string]any{"schema": map[string]any{"type": "object", "required": []any{"code"}, "properties": map[string]any{"code": map[string]any{"type": "integer"}, "message": map[string]any{"type": "string"}}}}}}
+		}
 		switch o.mode {
 		case "op":
 			op["security"] = secList(spec, o.alts, o.scopes)
@@ -84,7 +88,9 @@ func mkSchemes(kinds []string) []servlab.C09Scheme {
 		s := servlab.C09Scheme{Name: fmt.Sprintf("s%d", i), Kind: k}
 		switch k {
 		case "header":
-			s.Param = fmt.Sprintf("X-K%d", i)
+			// spellings that are and are not in the canonical form of net/http (X-Api-Key): field names are
+			// case-insensitive, the client may write any of them
+			s.Param = fmt.Sprintf([]string{"X-K%d", "X-API-Key%d", "x-api-key-%d", "api_key_%d", "X-k%dId"}[i%5], i)
 		case "query":
 			s.Param = fmt.Sprintf("k%d", i)
 		case "cookie":
@@ -139,6 +145,7 @@ func Main(args []string) int {
 	add := func(sp servlab.C09Spec, global [][]int, ops []rawOp, feats ...string) {
 		n++
 		sp.Key = fmt.Sprintf("p%04d", n)
+		sp.Convenient = n%3 == 0
 		for _, o := range ops {
 			eff := o.alts
 			switch o.mode {
